@@ -210,7 +210,9 @@ def build_harness(name="l1", race=False):
 # further statement files of a property (same rules as Properties/<pid>.v: statements, Print Assumptions, Examples);
 # they are compiled, scanned and counted together with the main file
 EXTRA_PROPERTY_FILES = {
-    "C01": ["C01views"],
+    "C01": ["C01views", "RefFin"],
+    "C03": ["RefFin"],
+    "C04": ["RefFin"],
     "C02": ["RefMod"],
     "C05": ["Refine", "RefMod"],
     "C06": ["C06own", "RefMod"],
@@ -306,3 +308,35 @@ TRUSTED_BASE = [
     "tools/translate (Go AST -> coq/Gen.v), fails closed",
     "modelled, not verified: goroutine scheduling, timers, TCP, x/net/websocket framing, protobuf encoding, Go memory model; each models method taken as one atomic action",
 ]
+
+
+def merge_evidence(pid, part, cov, info, assumptions, tb, rc, wall_s, checker_suffix, viol):
+    """appends the coverage of a second part of a property's check (e.g. its concurrent clause) to the evidence file the
+    first part has just written.  -> error string or None"""
+    edir = os.path.join(VERIF, "evidence") if not RTAG else os.path.join(WORK, "evidence" + RTAG)
+    ep = os.path.join(edir, pid + ".json")
+    try:
+        ev = json.load(open(ep))
+    except Exception as e:
+        return "the first part of the %s check left no evidence file: %s" % (pid, e)
+    c = ev["coverage"]
+    nt = len(info["theorems"])
+    c["obligations"] = c.get("obligations", 0) + nt
+    c["discharged"] = c.get("discharged", 0) + (nt if info["ok"] else 0)
+    c["theorems"] = c.get("theorems", []) + info["theorems"]
+    c["examples"] = c.get("examples", []) + info.get("examples", [])
+    c["trusted_base"] = c.get("trusted_base", []) + list(tb)
+    c["checker_cmd"] = c.get("checker_cmd", "") + checker_suffix
+    c["traces_validated_against_impl"] = c.get("traces_validated_against_impl", 0) + cov.get("traces_validated_against_impl", 0)
+    c["evaluations"] = c.get("evaluations", 0) + cov.get("evaluations", 0)
+    c[part] = {k: v for k, v in cov.items() if k not in ("known_lines", "obligations", "discharged", "theorems", "examples", "checker_cmd")}
+    c[part]["violations"] = viol
+    if cov.get("tie_broken"):
+        c["tie_broken"] = c.get("tie_broken", []) + [part + ": " + x for x in cov["tie_broken"]]
+    ev["assumptions"] = ev.get("assumptions", []) + list(assumptions)
+    ev["violations"] = int(ev.get("violations", 0)) + (1 if rc else 0)
+    ev["wall_s"] = round(float(ev.get("wall_s", 0)) + wall_s, 2)
+    tmp = ep + ".tmp"
+    json.dump(ev, open(tmp, "w"), indent=1)
+    os.replace(tmp, ep)
+    return None
